@@ -5,19 +5,19 @@ package srand
 
 import "math/rand"
 
-func Float64() float64        { return rand.Float64() }
-func Float32() float32        { return rand.Float32() }
-func Intn(n int) int          { return rand.Intn(n) }
-func Int() int                { return rand.Int() }
-func Int31() int32            { return rand.Int31() }
-func Int31n(n int32) int32    { return rand.Int31n(n) }
-func Int63() int64            { return rand.Int63() }
-func Int63n(n int64) int64    { return rand.Int63n(n) }
-func Uint32() uint32          { return rand.Uint32() }
-func Uint64() uint64          { return rand.Uint64() }
-func Perm(n int) []int        { return rand.Perm(n) }
-func Seed(s int64)            {}
-func ExpFloat64() float64     { return rand.ExpFloat64() }
-func NormFloat64() float64    { return rand.NormFloat64() }
+func Float64() float64                { return rand.Float64() }
+func Float32() float32                { return rand.Float32() }
+func Intn(n int) int                  { return rand.Intn(n) }
+func Int() int                        { return rand.Int() }
+func Int31() int32                    { return rand.Int31() }
+func Int31n(n int32) int32            { return rand.Int31n(n) }
+func Int63() int64                    { return rand.Int63() }
+func Int63n(n int64) int64            { return rand.Int63n(n) }
+func Uint32() uint32                  { return rand.Uint32() }
+func Uint64() uint64                  { return rand.Uint64() }
+func Perm(n int) []int                { return rand.Perm(n) }
+func Seed(s int64)                    {}
+func ExpFloat64() float64             { return rand.ExpFloat64() }
+func NormFloat64() float64            { return rand.NormFloat64() }
 func Shuffle(n int, f func(i, j int)) { rand.Shuffle(n, f) }
-func Read(p []byte) (int, error) { return rand.Read(p) }
+func Read(p []byte) (int, error)      { return rand.Read(p) }
